@@ -7,6 +7,9 @@ DST=/verif/seeded/$NAME
 [ -f $SRC/patch.diff ] || { echo "no patch"; exit 2; }
 mkdir -p $DST; cp -r $SRC/* $DST/
 cd $WT && git checkout -q -- . && git clean -fdq
+# the sub-agent may have worked on an older commit than /repo's HEAD (fixes committed meanwhile): judge base HEAD + patch
+HEADNOW=$(git -C /repo rev-parse HEAD); WAS=$(git rev-parse --short HEAD)
+if [ "$(git rev-parse HEAD)" != "$HEADNOW" ]; then git checkout -q --detach $HEADNOW; echo "== worktree moved from $WAS to /repo's HEAD $(git rev-parse --short HEAD)"; fi
 demo=$SRC/demo_test.go
 pkgdir=$(grep -m1 -oE 'go test.*' $demo | grep -oE '\./[A-Za-z0-9_]+' | tail -1 | sed 's#\./##'); [ -n "$pkgdir" ] || pkgdir=vm
 race=""; grep -m3 'go test' $demo | grep -q -- '-race' && race="-race"
@@ -16,7 +19,13 @@ if [ -z "$SKIPDEMO" ]; then
 echo "== clean tree demo (must pass)"; if [ "$pkgdir" = vm ] || [ "$pkgdir" = env ]; then tests=$(grep -ohE "^func (Test[A-Za-z0-9_]+)" $demo | sed 's/func //' | paste -sd'|'); run_demo() { cp $demo $WT/$pkgdir/zz_seed_demo_test.go; (cd $WT && timeout 900 go test $race -vet=off -count=1 -run "$tests" ./$pkgdir/ 2>&1 | tail -8); rm -f $WT/$pkgdir/zz_seed_demo_test.go; }; fi
 run_demo
 fi
-git apply $SRC/patch.diff || { echo "patch does not apply"; exit 2; }
+if ! git apply $SRC/patch.diff 2>/dev/null; then
+  if git apply -3 $SRC/patch.diff 2>/dev/null && ! git diff --name-only --diff-filter=U | grep -q .; then
+    git reset -q; cp $SRC/patch.diff $DST/patch.base-$WAS.diff; git diff > $DST/patch.diff; echo "== patch re-based onto HEAD by 3-way merge (original kept as patch.base-$WAS.diff)"
+  else
+    echo "patch does not apply to /repo's HEAD (written against $WAS): needs a manual re-base"; git checkout -q -- . ; git clean -fdq; exit 2
+  fi
+fi
 if [ -z "$SKIPDEMO" ]; then
 echo "== build + existing suite with patch"; go build ./... && go test -vet=off -count=1 ./... 2>&1 | grep -v "no test files" | tail -8
 echo "== patched demo (must fail)"; run_demo
